@@ -51,7 +51,7 @@ REQUIRED_FORMS = [
     "vlineto/1", "rrcurveto/1", "rrcurveto/n", "hhcurveto/1", "hhcurveto/n", "hhcurveto/dy1+1", "hhcurveto/dy1+n", "vvcurveto/1",
     "vvcurveto/n", "vvcurveto/dx1+1", "vvcurveto/dx1+n", "hvcurveto/4+8n", "hvcurveto/4+8n+1", "hvcurveto/8n", "hvcurveto/8n+1",
     "vhcurveto/4+8n", "vhcurveto/4+8n+1", "vhcurveto/8n", "vhcurveto/8n+1", "rcurveline/1", "rcurveline/n", "rlinecurve/1",
-    "rlinecurve/n", "flex", "hflex", "hflex1", "flex1/horizontal", "flex1/vertical", "hstem/1", "hstem/n", "vstem/1", "vstem/n",
+    "rlinecurve/n", "flex", "hflex", "hflex1", "flex1/horizontal", "flex1/vertical", "flex1/tie", "hstem/1", "hstem/n", "vstem/1", "vstem/n",
     "hstemhm/1", "hstemhm/n", "vstemhm/1", "vstemhm/n", "hintmask/plain", "hintmask/implicit-vstem", "cntrmask/plain",
     "cntrmask/implicit-vstem", "mask-bytes=1", "mask-bytes=2", "mask-bytes=3", "endchar",
 ]
@@ -1166,7 +1166,7 @@ def _first_op_blends(prog):
 def jobs(tier, seed):
     thorough = tier == "thorough"
     J = []
-    nfont_jobs, per_font_job = (400, 160) if thorough else (64, 36)
+    nfont_jobs, per_font_job = (384, 150) if thorough else (64, 36)
     for i in range(nfont_jobs):
         J.append(dict(kind="fonts", name="fonts-%d" % i, n=per_font_job, seed=subseed(seed, "fonts", i), tier=tier))
     nprog_jobs, per_prog_job = (64, 400) if thorough else (16, 60)
